@@ -197,6 +197,8 @@ def harness(ctx, pid, cases, extra):
 
 
 def run_C02(ctx, args):
+    if getattr(args, "replay", None):
+        return replay(ctx, args)
     d, cases, rng, quick, rows = run_family(ctx, "C02", 0)
     non_vacuity(ctx, rows, {
         "maps": lambda c: c["sig"]["k"] == "maps",
@@ -225,6 +227,8 @@ def run_C02(ctx, args):
 
 
 def run_C01(ctx, args):
+    if getattr(args, "replay", None):
+        return replay(ctx, args)
     d, cases, rng, quick, rows = run_family(ctx, "C01", 0)
     def typ(c):
         for i in c["ins"]:
@@ -260,14 +264,16 @@ def run_C01(ctx, args):
 
 
 def run_C05(ctx, args):
+    if getattr(args, "replay", None):
+        return replay(ctx, args)
     quick = ctx.tier == "quick"
     rng0 = random.Random(ctx.seed)
-    slices = [ctx.seed % SLICE_K] if quick else sorted(rng0.sample(range(SLICE_K), 14))
+    slices = [ctx.seed % SLICE_K] if quick else sorted(rng0.sample(range(SLICE_K), 12))
     d, cases, rng, quick, rows = run_family(ctx, "C05", 0, slices)
     ctx.exhaustive = False
     ctx.notes.append("E3 enumerates slices %s of %d of the widened product (linear design: one index is determined by the others); "
                      "the design-level totality theorem holds on every enumerated case" % (slices, SLICE_K))
-    events = harness(ctx, "C05", cases, {"gbits": 524278 if ctx.seed % 2 else 4096 + (ctx.seed * 7919) % 60000, "raw": 2000 if quick else 40000})
+    events = harness(ctx, "C05", cases, {"gbits": 524278 if ctx.seed % 2 else 4096 + (ctx.seed * 7919) % 60000, "raw": 1000 if quick else 30000})
     vals = [e for e in events if e["ev"] in ("Val", "Raw")]
     ctx.evaluations = len(vals)
     ctx.distinct = len({json.dumps(e["c"], sort_keys=True) for e in vals if e["ev"] == "Val"}) + \
@@ -298,6 +304,9 @@ def replay(ctx, args):
     d = ctx.specdir("Validate")
     events = harness(ctx, ctx.pid, cases, extra)
     ctx.evaluations = len(events)
+    ctx.distinct = len(events)
+    ctx.states = ctx.transitions = len(events)
+    ctx.rule = "replay of one recorded failing execution"
     ctx.traces = validate_trace(ctx, d, ctx.pid, events)
 
 
